@@ -132,6 +132,18 @@ func c07(run *ev.Run, tier string) {
 			s.Contents = append(s.Contents, &gen.Content{Src: filepath.Join(root, nd.Rel), Dst: "/opt/" + s.Name + "/blocks.bin"})
 			c.Feature("block-sized-payload")
 		}
+		if i%8 == 5 {
+			// several hundred entries: metadata members (.MTREE, md5sums, rpm header
+			// arrays) grow beyond the compressors' block sizes
+			sd := "src/many"
+			for k := 0; k < 600; k++ {
+				nd := &gen.Node{Rel: fmt.Sprintf("%s/d%02d/file-%04d.dat", sd, k%17, k), Kind: "file", Perm: 0o644, MTime: 1234567890 + int64(k), Size: 10 + k%50, Seed: uint64(k)}
+				c.Tree.Add(nd)
+			}
+			_ = c.Tree.Materialize(root)
+			s.Contents = append(s.Contents, &gen.Content{Src: filepath.Join(root, sd), Dst: "/usr/share/" + s.Name + "/many", Type: "tree"})
+			c.Feature("many-files")
+		}
 		cc := &c07Case{c: c, yaml: s.YAML(), allowed: allowedStamps(c), base: map[string][]byte{}}
 		nscripts := len(c.Tokens)
 		run.Case(c.Fingerprint(), nscripts >= 2 && (c.Features["big-file"] || c.Features["block-sized-payload"] || c.Features["changelog"]))
